@@ -89,6 +89,8 @@ def treeAct (st : TState) (a : SAct) : TState × String :=
     | .refilter id _ => st.fuzzy ++ subtreeIds sys' id
     | .attach id _ _ _ => st.fuzzy ++ [id]
     | .relist => st.fuzzy ++ List.range sys'.nodes.length
+    -- the root goes down inside the burst: which of the changes still on their way are delivered before is the schedule's choice
+    | .closeRoot => st.fuzzy ++ List.range sys'.nodes.length
     | _ => st.fuzzy
   let hard : Bool := st.inBurst && (st.fuzzyHard || (match a with
     | .close _ | .refilter _ _ | .relist | .closeRoot => true
